@@ -8,7 +8,7 @@ REPL = ['bstr_util_mem_to_pint/contract_pint_site', 'htp_log']
 
 
 def nu(fn, harness, loops, sub, src=('htp_util.c',), replace=REPL, **kw):
-    UNITS.append(U(name=fn, props=['C17', 'C01'], kind='contract', src=list(src), enforce=fn, replace=replace,
+    UNITS.append(U(name=fn, props=['C17', 'C01'] + (['C13'] if fn in ('htp_parse_port', 'htp_parse_positive_integer_whitespace') else []), kind='contract', src=list(src), enforce=fn, replace=replace,
                    contracts_inc=['c17_num.h'], loops={src[0]: {fn: loops}} if loops else {}, harness=harness,
                    defs=D, min_obl=20, sub=sub, assumes=A, **kw))
 
